@@ -2,7 +2,7 @@ import TeakraModel.Machine
 import TeakraModel.Operand
 import TeakraModel.Alu
 import TeakraModel.RegLayoutTypes
-import TeakraModel.Generated.RegLayout
+import TeakraModel.Golden.RegLayout
 /-!
 # Shared helpers of `Interpreter` (src/interpreter.h, private section and a few public ones)
 
@@ -270,7 +270,7 @@ def wordSet (slots : List Regs.Slot) (r : Regs) (value : U16) : Regs :=
   slots.foldl (fun r s => slotSet r s ((value >>> s.pos) &&& (BitVec.ofNat 16 (2 ^ s.len - 1)))) r
 
 def layoutOf (word : String) : List Regs.Slot :=
-  match Regs.layouts.find? (·.1 == word) with
+  match Regs.Golden.layouts.find? (·.1 == word) with
   | some (_, ss) => ss
   | none => []
 
